@@ -45,7 +45,7 @@ func c13upstreamFor(afterRedirect string) []repl {
 // c13pureBuilder: the location computed by a pure function of package route that returns it; pathFrom is the
 // expression the $path replacement starts from.
 func c13pureBuilder(pathFrom string) repl {
-	return repl{c13lookupHostDecl, "func redirectLocation(t *Target, requestURL *url.URL) *url.URL {\n\tloc := &url.URL{Scheme: t.URL.Scheme, Host: t.URL.Host, Path: t.URL.Path, RawPath: t.URL.Path, RawQuery: t.URL.RawQuery}\n\tif strings.HasSuffix(loc.Host, \"$path\") {\n\t\tloc.Host = loc.Host[:len(loc.Host)-len(\"$path\")]\n\t\tloc.Path = \"$path\"\n\t}\n\tif strings.Contains(loc.Path, \"/$path\") {\n\t\tloc.Path = strings.Replace(loc.Path, \"/$path\", \"$path\", 1)\n\t\tloc.RawPath = strings.Replace(loc.RawPath, \"/$path\", \"$path\", 1)\n\t}\n\tif strings.Contains(loc.Path, \"$path\") {\n\t\tpath, rawPath := " + pathFrom + ", requestURL.RawPath\n\t\tif rawPath == \"\" {\n\t\t\trawPath = path\n\t\t}\n\t\tif t.StripPath != \"\" {\n\t\t\tpath = strings.TrimPrefix(path, t.StripPath)\n\t\t\trawPath = strings.TrimPrefix(rawPath, t.StripPath)\n\t\t}\n\t\tif t.PrependPath != \"\" {\n\t\t\tpath = t.PrependPath + path\n\t\t\trawPath = t.PrependPath + rawPath\n\t\t}\n\t\tloc.Path = strings.Replace(loc.Path, \"$path\", path, 1)\n\t\tloc.RawPath = strings.Replace(loc.RawPath, \"$path\", rawPath, 1)\n\t\tif loc.RawQuery == \"\" && requestURL.RawQuery != \"\" {\n\t\t\tloc.RawQuery = requestURL.RawQuery\n\t\t}\n\t}\n\tif loc.Path == \"\" {\n\t\tloc.Path = \"/\"\n\t}\n\tif strings.Contains(loc.Host, \"$host\") {\n\t\tloc.Host = strings.Replace(loc.Host, \"$host\", requestURL.Host, 1)\n\t}\n\treturn loc\n}\n\n" + c13lookupHostDecl}
+	return repl{c13lookupHostDecl, "func redirectLocation(t *Target, requestURL *url.URL) *url.URL {\n\tloc := &url.URL{Scheme: t.URL.Scheme, Host: t.URL.Host, Path: t.URL.Path, RawPath: t.URL.Path, RawQuery: t.URL.RawQuery}\n\tif strings.HasSuffix(loc.Host, \"$path\") {\n\t\tloc.Host = loc.Host[:len(loc.Host)-len(\"$path\")]\n\t\tloc.Path = \"$path\"\n\t\tloc.RawPath = \"$path\"\n\t}\n\tif strings.Contains(loc.Path, \"/$path\") {\n\t\tloc.Path = strings.Replace(loc.Path, \"/$path\", \"$path\", 1)\n\t\tloc.RawPath = strings.Replace(loc.RawPath, \"/$path\", \"$path\", 1)\n\t}\n\tif strings.Contains(loc.Path, \"$path\") {\n\t\tpath, rawPath := " + pathFrom + ", requestURL.RawPath\n\t\tif rawPath == \"\" {\n\t\t\trawPath = path\n\t\t}\n\t\tif t.StripPath != \"\" {\n\t\t\tpath = strings.TrimPrefix(path, t.StripPath)\n\t\t\trawPath = strings.TrimPrefix(rawPath, t.StripPath)\n\t\t}\n\t\tif t.PrependPath != \"\" {\n\t\t\tpath = t.PrependPath + path\n\t\t\trawPath = t.PrependPath + rawPath\n\t\t}\n\t\tloc.Path = strings.Replace(loc.Path, \"$path\", path, 1)\n\t\tloc.RawPath = strings.Replace(loc.RawPath, \"$path\", rawPath, 1)\n\t\tif loc.RawQuery == \"\" && requestURL.RawQuery != \"\" {\n\t\t\tloc.RawQuery = requestURL.RawQuery\n\t\t}\n\t}\n\tif loc.Path == \"\" {\n\t\tloc.Path = \"/\"\n\t}\n\tif strings.Contains(loc.Host, \"$host\") {\n\t\tloc.Host = strings.Replace(loc.Host, \"$host\", requestURL.Host, 1)\n\t}\n\treturn loc\n}\n\n" + c13lookupHostDecl}
 }
 
 // c13localLoc: Table.Lookup compares the location through a local before it stores it into the request's copy.
